@@ -12,7 +12,8 @@ import dfols.controller as _C  # noqa: E402
 
 PROP = "C07"
 LEVEL = "exploration"
-RULE = ("Three generated classes over small random problems (n<=3, budgets <=40, LIN/SINLIN/HASHED/SCRIPT, none/box/"
+RULE = ("Profile 'sweep' (exhaustive): every documented key x every in-range, boundary, out-of-range and wrong-type value from the "
+        "committed table x nine base problems that use the key's feature. Profile 'args' (sampled): three generated classes over small random problems (n<=3, budgets <=40, LIN/SINLIN/HASHED/SCRIPT, none/box/"
         "scaled bounds, optional regulariser or projections). (a) valid: one or two user_params keys set to in-range or "
         "boundary values taken from a committed snapshot of the per-key type/range table (71 documented keys; default, "
         "both interval ends, default x 0.1 / x 10 clipped, None where allowed), on a base problem that actually uses the "
@@ -37,7 +38,7 @@ _guide = os.path.join(core.REPO, "docs", "userguide.rst")
 DOC_FLAGS = sorted(set(re.findall(r"soln\.(EXIT_[A-Z_]+)", open(_guide).read()))) if os.path.exists(_guide) else []
 if len(DOC_FLAGS) < 5:
     raise core.HarnessError("could not parse the exit-code names from docs/userguide.rst")
-EITHER = {("tr_radius.alpha1", 1.0), ("tr_radius.alpha1", 0.0), ("restarts.rhoend_scale", 0.0), ("general.safety_step_thresh", 0.0), ("slow.history_for_slow", 0), ("func_tol.max_iters", 0),
+EITHER = {("tr_radius.alpha1", 1.0), ("growing.delta_scale_new_dirns", 0.0), ("tr_radius.alpha1", 0.0), ("restarts.rhoend_scale", 0.0), ("general.safety_step_thresh", 0.0), ("slow.history_for_slow", 0), ("func_tol.max_iters", 0),
           ("func_tol.criticality_measure", 0.0), ("func_tol.tr_step", 1.0)}
 
 BASE_PROF = sc.make_prof(fams=["lin", "sinlin", "hashed", "script"], nmax=3, mmax=4,
@@ -327,6 +328,13 @@ def cases(draw):
             up = [x0[j] + 5 * rb for j in range(n)]
             lo[i] = x0[i] - w / 2
             up[i] = lo[i] + w
+            if kind in ("narrow", "narrow_hair"):
+                # "too narrow" must be true of the float64 numbers the solver sees: at |x0| >> rhobeg the 1e-12 hair is
+                # below an ulp of the bounds and fl(up - lo) can round up to 2*rhobeg (a false alarm of an earlier version)
+                for _ in range(64):
+                    if up[i] - lo[i] < 2 * rb:
+                        break
+                    up[i] = float(np.nextafter(up[i], -math.inf))
             mut["lower"], mut["upper"] = lo, up
             mut["rhobeg"] = rb
             mut["scaling"] = draw(st.booleans())
@@ -526,6 +534,69 @@ def sanitize(base, mut, noise):
         mut.pop("params")
 
 
-PROFILES = {"args": Profile("args", cases, run, quick=4000, thorough=100000, timeout=120)}
+# ----------------------------------------------------------------------------------------------------------------------
+# exhaustive single-key sweep: every key x every in-range / boundary / out-of-range / wrong-type value x base problems that
+# use the feature the key belongs to (the design's "quick tier" sweep; a finite space, enumerated completely)
+def _base(n, fam, **kw):
+    c = {"n": n, "fam": fam, "m": n + 1, "A": [[1.0 if i == j else 0.25 for i in range(n)] for j in range(n + 1)],
+         "b": [0.5 + 0.1 * j for j in range(n + 1)], "gamma": 0.5, "omega": 3.0, "amp": 0.3, "prf_seed": 3, "x0": [0.3] * n,
+         "lower": None, "upper": None, "scaling": False, "npt": n + 1, "rhobeg": 0.1, "rhoend": 1e-5, "maxfun": 40, "up": {},
+         "np_seed": 1, "tags": []}
+    c.update(kw)
+    return c
+
+
+SWEEP_BASES = [
+    ("plain", _base(2, "sinlin"), None),
+    ("soft-restarts", _base(2, "hashed", up={"restarts.use_restarts": True}, noise_flag=True), None),
+    ("hard-restarts", _base(2, "hashed", up={"restarts.use_restarts": True, "restarts.use_soft_restarts": False}), ("restarts", "slow", "tr_radius", "general", "model")),
+    ("scaled-box", _base(2, "sinlin", lower=[0.0, 0.0], upper=[1.0, 0.7], scaling=True, rhobeg=None), ("tr_radius", "general", "model", "init", "interpolation", "logging")),
+    ("growing", _base(3, "sinlin", up={"growing.ndirs_initial": 1}), ("growing", "general", "tr_radius", "interpolation")),
+    ("regression", _base(2, "hashed", npt=5, up={"regression.num_extra_steps": 1}), ("regression", "restarts", "general")),
+    ("regulariser", _base(2, "lin", reg={"kind": "l1", "lam": 0.1, "conv": "closure"}, maxfun=8), ("func_tol", "sfista", "dykstra")),
+    ("projections", _base(2, "lin", proj=[{"kind": "ball", "c": [0.0, 0.0], "r": 1.0}, {"kind": "half", "a": [1.0, 1.0], "beta": 1.0}], maxfun=10),
+     ("dykstra", "matrix_rank")),
+    ("noise-quit", _base(2, "hashed", up={"noise.quit_on_noise_level": True, "noise.additive_noise_level": 1e-2}), ("noise", "slow")),
+]
+
+
+def sweep_cases(tier):
+    out = []
+    for name, b, prefixes in SWEEP_BASES:
+        noise = bool(b.get("noise_flag"))
+        for key in KEYS:
+            if prefixes is not None and key.split(".")[0] not in prefixes:
+                continue
+            if key in b["up"]:
+                continue
+            for v, bd in valid_values(key, b["n"], b["npt"], b["maxfun"], noise):
+                if key == "restarts.max_npt":
+                    v = min(max(v, b["npt"]), (b["n"] + 1) * (b["n"] + 2) // 2)
+                if key == "growing.ndirs_initial" and v < b["npt"] - 1 and (b["npt"] != b["n"] + 1 or b.get("proj")):
+                    continue
+                trial = dict(b["up"])
+                trial[key] = v
+                if conflicts(b["up"], key, v, b) or contradictory(trial, b["n"], b["npt"], noise):
+                    continue
+                if key in ("dykstra.d_tol",) and v == 0.0 and name in ("regulariser", "projections"):
+                    continue     # every projection then runs all sweeps: slow, nothing else (DESIGN C07)
+                cls = "either" if (key, v) in EITHER else "valid"
+                out.append({"base": json.loads(json.dumps(b)), "cls": cls, "mut": {"params": {key: v}},
+                            "tags": ["sweep:" + name] + (["boundary"] if bd else [])})
+            for v in invalid_values(key, b["npt"]):
+                if param_ok(key, v, b["npt"]):
+                    continue
+                out.append({"base": json.loads(json.dumps(b)), "cls": "invalid", "mut": {"what": "param_sweep", "params": {key: v}},
+                            "tags": ["sweep:" + name]})
+    return out
+
+
+PROFILES = {"args": Profile("args", cases, run, quick=4000, thorough=100000, timeout=120),
+            "sweep": Profile("sweep", None, run, quick=0, thorough=0, timeout=120, enumerate=sweep_cases)}
+
+
+def coverage_extra(tier, merged):
+    return {"explanation": "profile 'sweep' enumerates completely: every documented key x every in-range/boundary/out-of-range/"
+            "wrong-type value of the committed table x the base problems that use the key's feature; profile 'args' is sampled"}
 KNOWN = {"projections-npt": known_projection_npt,
          "hard-restart-npt-growth": known_hard_npt_growth, "subnormal-gap": known_subnormal_gap}
